@@ -241,6 +241,10 @@ def modify_rules(ctx, m, with_typestate=True):
     n_key = key_write_rules(ctx, m, [f], k1="replace", k3="replace")
     from .c01 import fresh_stamp_rules
     fresh_stamp_rules(ctx, m, [f], rule="replace-fresh-stamp")
+    # a modification delivered as an instruction (process_event, which the environments use) is the direct modify_order call:
+    # the event dispatch forwards it once, unconditionally, fields bound by name (C08's dispatch rule)
+    from .c08 import dispatch_rules
+    dispatch_rules(_Prefixed(ctx, "event-"), m)
     ctx.check(n_key >= 1, "replace", "fresh-key", ctx.loc(f), "%d key rebuild(s) in the whole-operation view of modify_order" % n_key)
     # identity fields untouched
     tws = [t_[0] for t_ in m.trade_writers()]
